@@ -998,7 +998,19 @@ BUILTIN_TYPES = {
     zip: b_zip,
 }
 
+def b_getattr(it, args, kwargs, fr, node):
+    """getattr(o, 'name'[, default]) with a constant name: the attribute; the default only when the object is known
+    not to have it (a modelled object which lacks the field is out of reach, never silently defaulted)"""
+    o, name = args[0], args[1]
+    if not isinstance(name, str):
+        raise Unsupported('getattr with a non-constant name')
+    if isinstance(o, VObj) and name not in o.fields and o.cls is None and not o.fields.get('opaque!'):
+        raise Unsupported(f'getattr({o.name!r}, {name!r}): the model of this object does not say whether it has the attribute')
+    return it.getattr(o, name, fr, node)
+
+
 BUILTIN_FUNCS = {
+    ('builtins', 'getattr'): b_getattr,
     ('builtins', 'len'): b_len,
     ('builtins', 'isinstance'): b_isinstance,
     ('builtins', 'min'): b_minmax('min'),
